@@ -6,6 +6,7 @@ import (
 	"io"
 	"os"
 	"sort"
+	"strings"
 	"sync"
 	"time"
 
@@ -184,6 +185,10 @@ func (r *Runner) start(i int) *sim.Instance {
 			r.W.ViolateLocked("C10", "R3", "C10/R3/newraft-does-not-return", "%s: NewRaft did not return within 20 virtual seconds (disk: %s)", in.ID(), in.Srv.Disk.LogString())
 		case in.StartPanic != nil:
 			r.W.ViolateLocked("C10", "R3", "C10/R3/newraft-panics", "%s: NewRaft panicked: %v (disk: %s)", in.ID(), in.StartPanic, in.Srv.Disk.LogString())
+		case in.StartErr != nil && strings.Contains(in.StartErr.Error(), sim.ErrInjected.Error()):
+			// the store error the fault plan injected hit a start-up operation:
+			// failing NewRaft with that error is the documented behaviour
+			r.feat("newraft-refused-on-injected-store-error")
 		default:
 			r.W.ViolateLocked("C10", "R3", "C10/R3/newraft-fails", "%s: NewRaft failed: %v (disk: %s)", in.ID(), in.StartErr, in.Srv.Disk.LogString())
 		}
